@@ -9,7 +9,8 @@ SEARCH_N = {'quick': 2500, 'thorough': 15000}
 SHARD = 150
 CASE_TIMEOUT = 30.0
 RULE = ('files with 1..4 dimensions of length 1..5, 1..4 variables of rank 0..4 over arbitrary dimension subsets/orders (masked and '
-        'unmasked, coordinate variable of the stack dimension, attributes), distinct integer cells per file; "split": every partition of the '
+        'unmasked, int32/float32/float64, own fill_value / missing_value / _FillValue among 0, -999, -1, numpy default with UNMASKED cells holding exactly '
+        'that value, coordinate variable of the stack dimension, attributes), distinct integer cells per file; "split": every partition of the '
         'chosen dimension into 1..5 consecutive pieces (length-1 and occasionally empty pieces) made with sliceDimensions, stacked, compared '
         'with the original, and the stacked file sliced at every extent compared with the piece; "multi": 2..5 independently built files of '
         'differing lengths along the stack dimension (any axis position) stacked in order, `other` given as list or as single file; '
@@ -100,6 +101,9 @@ def _gen_mfopen(rng, dims, vs, sd):
     dims = [[d[0], nlen if d[0] == sd else (min(d[1], 2) if many else d[1]), d[2]] for d in dims]
     lend = dict((d[0], d[1]) for d in dims)
     vs = [dict(v) for v in vs if len(v['dims']) > 0 or rng.random() < 0.5]
+    for v in vs:      # netCDF itself masks cells equal to _FillValue on reading: keep these files plain int32 / -999
+        for key in ('fill', 'fillkey', 'fillcells', 'dtype'):
+            v.pop(key, None)
     if not any(sd in v['dims'] for v in vs):
         vs.append(dict(name='S', dims=[sd], masked=False, attrs={'units': 'u_S'}))
     for v in vs:
@@ -152,8 +156,8 @@ def _cells(fc, vi, v):
     size = 1
     for dn in v['dims']:
         size *= lend[dn]
-    vals = [fc.get('base', 0) + vi * 1000 + k for k in range(size)]
     mask = v['mask'] if v.get('masked') else [0] * size
+    vals = S2._apply_fill(v, [fc.get('base', 0) + vi * 1000 + k for k in range(size)], mask)
     return vals, mask
 
 
@@ -169,18 +173,7 @@ def _build(fc):
     for vi, v in enumerate(fc['vars']):
         shape = tuple(lend[n] for n in v['dims'])
         vals, mask = _cells(fc, vi, v)
-        vals = np.array(vals, dtype='i').reshape(shape)
-        if v.get('masked'):
-            var = f.createVariable(v['name'], 'i', tuple(v['dims']), fill_value=-999)
-            var[...] = vals
-            m = np.array(mask, dtype=bool).reshape(shape)
-            if m.any():
-                var[m] = np.ma.masked
-        else:
-            var = f.createVariable(v['name'], 'i', tuple(v['dims']))
-            var[...] = vals
-        for k, a in v.get('attrs', {}).items():
-            setattr(var, k, a)
+        S2._create(f, v, shape, vals, mask)
     f.title = 'file %d' % (fc.get('base', 0) // 100000)
     f.NVAL = 7
     return f
@@ -355,7 +348,7 @@ def py_check(case, obs):
                 why.append('%s masked-ness changed' % sv['name'])
             if sv['attrs'] != v0['attrs']:
                 why.append('%s attributes %s != %s' % (sv['name'], sv['attrs'], v0['attrs']))
-        if sv['dtype'] != 'int32':
+        if sv['dtype'] != S2.NPDT[case['vars'][vi].get('dtype', 'i')]:
             why.append('%s dtype %s' % (sv['name'], sv['dtype']))
     if case['kind'] != 'legacy' and st['gattrs'] != f0['gattrs']:
         why.append('global attributes %s != %s' % (st['gattrs'], f0['gattrs']))
